@@ -16,6 +16,10 @@ package conf
 //   apijson <g|p> <jsonhex>
 //       hostile leaf values through the API decoders: jsonwrapper.Unmarshal into OptionalGlobal (g) / OptionalPath (p)
 //       under recover. answer ok | err | panic (a panic is a FAIL: the API must reject, not crash)
+//   loadrt <yamlhex> <k:v,...>
+//       real conf.Load of that file with those MTX_ variables (list items created from variables only, nested lists
+//       left unset), then what the API returns (global, pathDefaults, every path) is decoded as a patch/replace would.
+//       answer eq | loaderr | err <part> | diff <part>
 //   conf <seed> ss=<field:val,..> du=<field:val,..>
 //       a configuration built by reflection from <seed> (every leaf drawn over its domain), encoded as the API
 //       returns it and decoded as an API patch/replace would; answer eq | diff <fields> | err <part>
@@ -24,6 +28,7 @@ import (
 	"encoding/json"
 	"fmt"
 	"math"
+	"os"
 	"reflect"
 	"regexp"
 	"sort"
@@ -156,6 +161,8 @@ func verifC08Exec(op string) string {
 			}
 			return "ok"
 		}()
+	case "loadrt":
+		return verifC08LoadRT(verifutil.UnHex(f[1]), f[2])
 	case "conf":
 		seed, _ := strconv.ParseUint(f[1], 10, 64)
 		return verifC08ConfRT(seed)
@@ -488,6 +495,108 @@ func verifC08ConfOp(seed uint64) string {
 	return fmt.Sprintf("conf %d ss=%s du=%s", seed, l(bt.ss), l(bt.du))
 }
 
+// ---------- loaded configurations (file + environment) read through the API and written back ----------
+
+func verifC08LoadRT(file []byte, envs string) (res string) {
+	defer func() {
+		if r := recover(); r != nil {
+			res = "panic"
+		}
+	}()
+	dir, err := os.MkdirTemp("", "verifc08")
+	if err != nil {
+		panic(err)
+	}
+	defer os.RemoveAll(dir)
+	p := dir + "/conf.yml"
+	os.WriteFile(p, file, 0o644)
+	if envs != "[]" {
+		for _, it := range strings.Split(envs, ",") {
+			k, v, _ := strings.Cut(it, ":")
+			os.Setenv(verifutil.UnHexS(k), verifutil.UnHexS(v))
+			defer os.Unsetenv(verifutil.UnHexS(k))
+		}
+	}
+	c, _, err := Load(p, nil, nil)
+	if err != nil {
+		return "loaderr"
+	}
+	// global
+	b, err := json.Marshal(c.Global())
+	if err != nil {
+		return "err marshal-global"
+	}
+	var og OptionalGlobal
+	if err = jsonwrapper.Unmarshal(b, &og); err != nil {
+		return "err global"
+	}
+	c2 := c.Clone()
+	c2.PatchGlobal(&og)
+	if !reflect.DeepEqual(c.Global(), c2.Global()) {
+		return "diff global"
+	}
+	// path defaults
+	if b, err = json.Marshal(c.PathDefaults); err != nil {
+		return "err marshal-pathDefaults"
+	}
+	var od OptionalPath
+	if err = jsonwrapper.Unmarshal(b, &od); err != nil {
+		return "err pathDefaults"
+	}
+	// paths as returned by /v3/config/paths/get
+	names := make([]string, 0, len(c.Paths))
+	for n := range c.Paths {
+		names = append(names, n)
+	}
+	sort.Strings(names)
+	for _, n := range names {
+		if b, err = json.Marshal(c.Paths[n]); err != nil {
+			return "err marshal-paths." + n
+		}
+		var op OptionalPath
+		if err = jsonwrapper.Unmarshal(b, &op); err != nil {
+			return "err paths." + n
+		}
+	}
+	return "eq"
+}
+
+// (file, variables): list items that exist only through variables, with their nested lists left unset
+var verifC08LoadCases = [][2]string{
+	{"", "MTX_AUTHINTERNALUSERS_2_USER=bob,MTX_AUTHINTERNALUSERS_2_PASS=x,MTX_AUTHINTERNALUSERS_2_PERMISSIONS_0_ACTION=read"},
+	{"", "MTX_AUTHINTERNALUSERS_2_USER=bob"},
+	{"authInternalUsers: []", "MTX_AUTHINTERNALUSERS_0_USER=bob,MTX_AUTHINTERNALUSERS_0_PERMISSIONS_0_ACTION=publish"},
+	{"authInternalUsers:\n- user: alice\n  permissions:\n  - action: read", "MTX_AUTHINTERNALUSERS_1_USER=bob,MTX_AUTHINTERNALUSERS_1_IPS=1.2.3.4"},
+	{"", "MTX_AUTHHTTPEXCLUDE_0_ACTION=read,MTX_AUTHJWTEXCLUDE_0_ACTION=api"},
+	{"", "MTX_WEBRTCICESERVERS2_0_URL=stun:h:3478"},
+	{"", "MTX_PATHS_CAM_FORWARD_0_DEST=rtmp://h/x"},
+	{"", "MTX_PATHDEFAULTS_FORWARD_0_DEST=rtmp://h/x,MTX_PATHS_CAM_RECORD=yes"},
+	{"", "MTX_PATHS_CAM_ALWAYSAVAILABLE=yes,MTX_PATHS_CAM_ALWAYSAVAILABLETRACKS_0_CODEC=H264"},
+	{"paths:\n  cam:\n    source: publisher", "MTX_PATHS_CAM_RTSPUDPSOURCEPORTRANGE=1,2;MTX_PATHS_NEW_SOURCE=publisher"},
+	{"", "MTX_PATHS_CAM_SOURCE=publisher"},
+	{"", ""},
+}
+
+func verifC08LoadOp(i int) string {
+	c := verifC08LoadCases[i]
+	var kvs []string
+	sep := ","
+	if strings.Contains(c[1], ";") {
+		sep = ";"
+	}
+	if c[1] != "" {
+		for _, it := range strings.Split(c[1], sep) {
+			k, v, _ := strings.Cut(it, "=")
+			kvs = append(kvs, verifutil.HexS(k)+":"+verifutil.HexS(v))
+		}
+	}
+	e := "[]"
+	if len(kvs) > 0 {
+		e = strings.Join(kvs, ",")
+	}
+	return "loadrt " + verifutil.HexS(c[0]) + " " + e
+}
+
 // ---------- hostile leaf values through the API JSON decoders ----------
 
 type verifC08HLeaf struct {
@@ -638,6 +747,10 @@ var verifC08HostileDur = []string{"", "d", "1d", "-1d", "-0d", "0d", "1d1h", "1d
 	"1d1ns", "1d0s", "1d0", "-", "--", "-d", "1h1d", "2562047h47m16.854775807s", "2562048h", "-2562047h47m16.854775808s", "1d2562047h", "٣d", "1٤d", "1d\x00", "\xff"}
 
 func verifC08Gen(r *verifutil.Rand, i int, thorough bool) []string {
+	if i < len(verifC08LoadCases) {
+		return []string{verifC08LoadOp(i)}
+	}
+	i -= len(verifC08LoadCases)
 	if i < len(verifC08HostileDur) {
 		return []string{verifC08UdurOp(verifC08HostileDur[i])}
 	}
